@@ -410,9 +410,11 @@ def _prevalence_threshold(cm: _ConfusionMatrix) -> types.NumbersT:
 
 def _matthews_correlation_coefficient(cm: _ConfusionMatrix) -> types.NumbersT:
   """Matthews corrrelation coefficient (MCC)."""
-  numerator = cm.tp * cm.tn - cm.fp * cm.fn
+  # In floating point: the product of four integer counts overflows int64.
+  tp, tn, fp, fn = (np.asarray(c, dtype=float) for c in (cm.tp, cm.tn, cm.fp, cm.fn))
+  numerator = tp * tn - fp * fn
   denominator = math_utils.pos_sqrt(
-      (cm.tp + cm.fp) * (cm.tp + cm.fn) * (cm.tn + cm.fp) * (cm.tn + cm.fn)
+      (tp + fp) * (tp + fn) * (tn + fp) * (tn + fn)
   )
   return math_utils.safe_divide(numerator, denominator)
 
